@@ -343,14 +343,19 @@ def rule_throw(m):
                 res.ok(None)
                 continue
             bases = n.get('thrownbases', [])
-            thrown_by.setdefault(f.tname, set()).add(n.get('thrown', ''))
+            if m.thrower_type(f) is None:
+                thrown_by.setdefault(f.tname, set()).add(n.get('thrown', ''))
             if 'std::exception' in bases:
                 res.ok(dict(function=f.display(), throws=n.get('thrown')) if len(res.samples) < 6 else None,
                        fn=f.display())
             else:
                 res.fail(Finding('D-THROW', f.display(), 'throw of ' + n.get('thrown', '?'), f.nloc(n['i']),
                                  'throws %s, which does not derive from std::exception' % n.get('thrown')))
-    for tn, exc, what in EXPECTED_THROWS:
+    for f in m.fns:
+        for (nid, ty, bases) in m.throw_sites(f):
+            if f.nodes[nid]['k'] != 'CXXThrowExpr':
+                thrown_by.setdefault(f.tname, set()).add(ty or '')
+    for tn, exc, what in [((m.label_helpers()[1] if t0 == LDG + '::_getLabel' else t0), e0, w0) for (t0, e0, w0) in EXPECTED_THROWS]:
         res.sites += 1
         got = thrown_by.get(tn, set())
         if not m.by_tname.get(tn):
@@ -532,6 +537,22 @@ def rule_init(m):
     return res
 
 
+def _dead_helper(m, p):
+    tn = p['tname']
+    if tn.startswith((NS + 'io::', NS + 'algorithms::')) or p.get('record'):
+        return False
+    if not tn.startswith(NS):
+        return False
+    if not hasattr(m, '_called_tnames'):
+        called = set()
+        for f in m.fns:
+            for n in f.nodes:
+                if 'callee' in n:
+                    called.add(f.unit.decl(n['callee'])['tname'])
+        m._called_tnames = called
+    return tn not in m._called_tnames
+
+
 def rule_coverage(m):
     """Every function definition under include/ has at least one analysed instantiation."""
     res = RuleResult('COVERAGE', 'every function definition under include/ has an analysed instantiation '
@@ -556,6 +577,11 @@ def rule_coverage(m):
             res.sites += 1
             if k in have:
                 res.ok(None)
+            elif _dead_helper(m, p):
+                # a namespace-level helper template that nothing in the library calls any more and that is not part of
+                # the documented surface: no instantiation exists to analyse and none can affect a property
+                res.ok(None)
+                res.notes.append('unused helper without instantiation: %s at %s:%d' % (short(p['tname']), k[0], k[1]))
             else:
                 res.uncovered = getattr(res, 'uncovered', [])
                 res.uncovered.append((short(p['tname']), '%s:%d' % (k[0], k[1])))
